@@ -88,6 +88,11 @@ func c16NewChainAt(dir string) (*c16Chain, error) {
 }
 
 func c16NewChainOn(st storage.Store) *c16Chain {
+	return c16NewChainHF(st, func(config.Hardfork) uint32 { return 0 })
+}
+
+// c16NewChainHF: like c16NewChainOn with every known hard-fork scheduled at the height given by at(hf)
+func c16NewChainHF(st storage.Store, at func(config.Hardfork) uint32) *c16Chain {
 	t := &c16T{}
 	bc, acc := chain.NewSingleWithOptions(t, &chain.Options{
 		Logger: zap.NewNop(),
@@ -95,7 +100,7 @@ func c16NewChainOn(st storage.Store) *c16Chain {
 		BlockchainConfigHook: func(c *config.Blockchain) {
 			c.Hardforks = map[string]uint32{}
 			for _, hf := range config.Hardforks {
-				c.Hardforks[hf.String()] = 0
+				c.Hardforks[hf.String()] = at(hf)
 			}
 			c.P2PSigExtensions = true
 		},
